@@ -110,9 +110,9 @@ theorem refused_before_resolvers (fuel : Nat) (S : Schema) (o : Oracle) (env : E
 /-- non-vacuity -/
 def S0 : Schema := { types := [.scalar "Int", .input "In" [⟨"x", .nonNull (.named "Int"), none⟩, ⟨"y", .named "Int", some (.int "7")⟩]], queryType := "Query", mutationType := none, subscriptionType := none }
 def o0 : Oracle := ⟨fun _ => none⟩
-example : coerceVariable 9 S0 o0 ⟨"v", .list (.named "In"), none, ⟨1, 1⟩⟩ [("v", .dict [("x", .int 1)])]
+example : coerceVariable 9 S0 o0 ⟨"v", .list (.named "In"), none, ⟨1, 1⟩, ⟨0, 0⟩⟩ [("v", .dict [("x", .int 1)])]
     = .value (.list [.dict [("x", .int 1), ("y", .int 7)]]) := by rfl
-example : (match coerceVariable 9 S0 o0 ⟨"v", .named "In", none, ⟨1, 1⟩⟩ [("v", .dict [("z", .int 1)])] with
+example : (match coerceVariable 9 S0 o0 ⟨"v", .named "In", none, ⟨1, 1⟩, ⟨0, 0⟩⟩ [("v", .dict [("z", .int 1)])] with
     | .errors es => es.length | _ => 0) = 2 := by rfl
 
 end Tart.C04
